@@ -79,9 +79,29 @@ const char *rtosc_match_path(const char *pattern,
         if(*pattern == ':' && !*msg)
             return *path_end = msg, pattern;
         else if(*pattern == '{') {
-            pattern = rtosc_match_options(pattern, &msg);
-            if(!pattern)
-                return NULL;
+            //An alternative may be a prefix of another one ({a,ab}c), so
+            //committing to the first one the message spells is not enough:
+            //try each spelled alternative until the rest of the pattern
+            //matches (recursion depth = number of option groups)
+            const char *rest = pattern;
+            while(*rest && *rest != '}') rest++;
+            if(*rest == '}')
+                rest++;
+            const char *alt = pattern+1;
+            while(1) {
+                const char *m = msg;
+                while(*alt && *alt != ',' && *alt != '}' && *m && *alt == *m)
+                    ++alt, ++m;
+                if(*alt == ',' || *alt == '}') {
+                    const char *res = rtosc_match_path(rest, m, path_end);
+                    if(res)
+                        return res;
+                }
+                while(*alt && *alt != ',' && *alt != '}') alt++;
+                if(*alt != ',')
+                    return NULL;
+                alt++;
+            }
         } else if(*pattern == '*') {
             //advance message and pattern to '/' or ':' and '\0'
             while(*pattern && *pattern != '/' && *pattern != ':')
